@@ -81,7 +81,7 @@ Proof. intros A h1 h2 time. apply interpolate_prefix. Qed.
     every consumer receives the same info and the producer ends with the same info (C07_fanout_order). *)
 Theorem C05_metadata_order_independent :
   forall oi st n cs cs' l,
-    Info_proofs.fully_set oi -> Permutation cs cs' ->
+    Info_proofs.fully_set st oi -> Permutation cs cs' ->
     snd (Info.run_all (Info.init_out (Some oi) st n) cs) = Info.XOk l ->
     exists l', snd (Info.run_all (Info.init_out (Some oi) st n) cs') = Info.XOk l'
                /\ Permutation (combine cs l) (combine cs' l')
